@@ -117,6 +117,15 @@ Theorem C03_call_label_arrives : forall a l s, wf_vm s -> reg_ix a -> 0 <= l < 6
 Proof. exact call_label_arrives. Qed.
 Print Assumptions C03_call_label_arrives.
 
+(* the real operation CALL(Ra, Rb) itself, for ANY two registers (also Ra = Rb and FP as an operand, which C01's
+   specification leaves open): the code performs the two exchanges one after the other ([swap_gen]), and control goes to
+   the address that was in Rb *)
+Theorem C03_call_any_registers : forall s a b, wf_vm s -> reg_ix a -> reg_ix b ->
+  exec_CALL [PI a; PI b] s = Ok (tt, swap_gen a b (upd_ers (ers s ++ [(getreg s b, pc s + 1)]) s)) /\
+  pc (swap_gen a b (upd_ers (ers s ++ [(getreg s b, pc s + 1)]) s)) = getreg s b.
+Proof. exact call_any_registers. Qed.
+Print Assumptions C03_call_any_registers.
+
 (* OPCODE(w) expands to exactly the instruction w decodes to (whose meaning is C01's) *)
 Theorem C03_OPCODE : forall w o, disassemble w false = Ok o -> convert_full (mkop O_OPCODE [N w]) = Ok [o].
 Proof. exact opcode_meaning. Qed.
